@@ -41,7 +41,7 @@ func runC10(w *World) {
 	}
 	e := ch.E
 	dur := time.Duration(w.Range(0, 40000, "durms")) * time.Millisecond
-	trigger := Pick(w, "trigger", "time", "dial-accepted", "open-written", "keepalive-written", "in-onestablished", "two-conns", "time", "dial-pending")
+	trigger := Pick(w, "trigger", "time", "dial-accepted", "open-written", "keepalive-written", "in-onestablished", "two-conns", "time", "dial-pending", "inbound-offered")
 	w.Sample["trigger"] = trigger
 	offset := w.Draw(12, "stepoffset")
 	if trigger == "time" {
@@ -85,6 +85,12 @@ func runC10(w *World) {
 			case "in-onestablished":
 				for _, pl := range ch.AllPlugs() {
 					if pl.st == plInE {
+						return true
+					}
+				}
+			case "inbound-offered":
+				for _, c := range w.Net.AllConns() {
+					if c.Inbound && !c.LClosed && c.NWrites == 0 && w.Now()-c.CreatedAt < time.Millisecond {
 						return true
 					}
 				}
